@@ -123,6 +123,75 @@ def doAct (d : Drv) (a : Act) (isClose : Option Nat := none) : Drv × String :=
     let es := st2.log.drop st.log.length
     ({ st := st2, closes := d.closes ++ cs }, showLine res es cs st2)
 
+/-! ### concurrent closers (`cc <k> <procs> <depth> <tasks> <kids> <par> <err> <rounds>`, see
+harness/cmd/scope/closers.go): k goroutines call `Close` on the same scope at the same moment.  In the
+transition system the guard of `close s` is one atomic act, so k concurrent calls are k `close s` acts in
+some order with anything in between: the first is enabled with `phase = opened` and runs the protocol, every
+later one panics (`Goat.C11.closers_one_winner`, `close_protocol_once`).  `procs`, `depth` and `rounds` only
+steer the implementation's scheduling. -/
+
+def closeEvs : List Ev :=
+  [.beforeCommit, .commit, .afterCommit, .beforeRollback, .rollback, .afterRollback, .beforeClose, .afterClose]
+
+/-- one act, then everything it causes -/
+def ccAct (st : State) (a : Act) : State × Option Outcome :=
+  match exec st a with
+  | none => (st, none)
+  | some (st1, out) => ((settle st1 none []).1, some out)
+
+def ccLine (k tasks kids par : Nat) (err : String) : String := Id.run do
+  let go := fun (st : State) (a : Act) => (ccAct st a).1
+  let mut st : State := go {} .new
+  let mut si := 0
+  if par != 0 then
+    st := go st (.child 0 (par == 2))
+    st := go st (.child 0 false)
+    si := 1
+    for e in closeEvs do
+      st := go st (.on 0 e false)
+  let el : Option Nat := match err.toList with
+    | ['l', c] => if c.isDigit then some (c.toNat - '0'.toNat) else none
+    | _ => none
+  let mut i := 0
+  for e in closeEvs do
+    st := go st (.on si e (el == some i))
+    i := i + 1
+  if tasks > 0 then st := go st (.addTasks si tasks)
+  let kid0 := st.nScopes
+  for _ in [0:kids] do
+    st := go st (.child si false)
+  if err == "pre" then st := go st (.appErr si)
+  if par != 0 then st := go st (.close 0)
+  let mut acc := 0
+  let mut ref := 0
+  let mut oth := 0
+  for _ in [0:k] do
+    let r := ccAct st (.close si)
+    st := r.1
+    match r.2 with
+    | some .ok => acc := acc + 1
+    | some .panic => ref := ref + 1
+    | _ => oth := oth + 1
+  for _ in [0:tasks] do
+    st := go st (.doneTask si)
+  for j in [0:kids] do
+    if j == 0 && err == "kid" then st := go st (.appErr kid0)
+    st := go st (.close (kid0 + j))
+  if par != 0 then st := go st (.close 2)
+  let fin := st
+  let cs := (List.range fin.nScopes).filterMap fun s =>
+    (fin.scp s).result.map fun e => s!"{s}={if e then 1 else 0}"
+  let qs := (List.range fin.nScopes).filterMap fun s =>
+    let q := (fin.log.filter fun e => e.src == some s).map fun e => s!"{e.lid}:{evName e.ev}"
+    if q.isEmpty then none else some s!"{s}={",".intercalate q}"
+  return s!"cc acc={acc} ref={ref} oth={oth} C[{",".intercalate cs}] Q[{";".intercalate qs}]"
+
+def ccErrOk (err : String) : Bool :=
+  err == "none" || err == "pre" || err == "kid" ||
+    (match err.toList with
+     | ['l', c] => '0' ≤ c && c ≤ '7'
+     | _ => false)
+
 def stepLine (d : Drv) (line : String) : Drv × String :=
   let bad := (d, "bad-op")
   match line.splitOn " " with
@@ -154,6 +223,13 @@ def stepLine (d : Drv) (line : String) : Drv × String :=
   | ["stop", s] => match s.toNat? with | some s => doAct d (.stop s) | none => bad
   | ["close", s] => match s.toNat? with | some s => doAct d (.close s) (some s) | none => bad
   | ["settle"] => (d, showLine "ok" d.st.log d.closes d.st)
+  | ["cc", k, procs, depth, tasks, kids, par, err, rounds] =>
+    match k.toNat?, procs.toNat?, depth.toNat?, tasks.toNat?, kids.toNat?, par.toNat?, rounds.toNat? with
+    | some k, some procs, some _, some tasks, some kids, some par, some rounds =>
+      if k ≥ 1 && k ≤ 64 && procs ≥ 1 && tasks ≤ 16 && kids ≤ 16 && par ≤ 2 && rounds ≥ 1 && ccErrOk err then
+        (d, ccLine k tasks kids par err)
+      else bad
+    | _, _, _, _, _, _, _ => bad
   | _ => bad
 
 partial def loop (inp out : IO.FS.Stream) (d : Drv) : IO Unit := do
